@@ -22,7 +22,7 @@ META = {
     "congruent to the exact function of the operand angles, SE(3) | |q| - 1 | <= 8 k eps after k operations, finiteness; (chain) every word of length <= 2 iterated periodically to 1e3 "
     "(thorough 1e4; length 3 to 1e3) operations; (opt) SE(3) SLAM families optimised 50 iterations one at a time, norms checked after each; (optk) one optimize(tol=0, max_iter=k) call for EVERY k in 1..50. non-trivial = node reached by a word containing a rotation",
     "assumptions": ["exhaustive in the generating word, not over all 1e4-long words", "drift bound 8 k eps (measured <= 1.0 k eps on the pinned tree)"],
-    "required_classes": ["wrap", "wrap:plus_pi_reached", "ctor", "load", "mat", "intctor", "halfturn", "opt_single_call", "normalize", "tree:SE2", "tree:SE3", "chain:SE2", "chain:SE3", "opt_history", "w_negative", "angle_seam"],
+    "required_classes": ["wrap", "wrap:plus_pi_reached", "ctor", "load", "mat", "intctor", "halfturn", "tinyadd", "opt_single_call", "normalize", "tree:SE2", "tree:SE3", "chain:SE2", "chain:SE3", "opt_history", "w_negative", "angle_seam"],
     "bounds": {"quick": "tree depth 4; chains: words <= 2 to 1e3 operations; optimizer histories 50 iterations", "thorough": "tree depth 5; chains: words <= 2 to 1e4, words of length 3 to 1e3"},
 }
 
@@ -176,6 +176,10 @@ def run_chunk(chunk, tier, seed):
                     acc.violation(case, msgs)
                 acc.sample(case, 1)
         extra = [{"t": "intctor", "a": k, "pos": pos} for k in range(-10, 11) for pos in ("int", "float")]
+        # angles where an inverse-trigonometric shortcut is ill-conditioned, for construction from a matrix
+        extra += [{"t": "mat", "a": x} for x in (1e-5, -1e-6, 1e-9, 3e-9, math.pi - 3e-8, -math.pi + 1e-6, math.pi / 2 + 1e-7, -math.pi / 2 - 1e-7, 1e-12)]
+        # composition / update by a heading increment far below 1e-12 (still thousands of ulps of a small angle)
+        extra += [{"t": "tinyadd", "a": x, "inc": inc, "how": how} for x in (0.0, 0.3, -2.0, 3.1, 1e-9) for inc in (5e-13, -3e-13, 2e-15) for how in ("pose", "array", "iadd")]
         extra += [{"t": "halfturn", "a": math.pi, "z": [z1, z2], "tr": tr} for z1 in (0.0, -0.0, 1.2246467991473532e-16, -1.2246467991473532e-16) for z2 in (0.0, -0.0, 1.2246467991473532e-16, -1.2246467991473532e-16) for tr in ([0.0, 0.0], [3.0, -4.0])]
         for case in extra:
             acc.evals += 1
@@ -335,7 +339,7 @@ def _chain(acc, kind, seed, word, n):
 
 def eval_case(case):
     t = case["t"]
-    if t in ("wrap", "ctor", "load", "mat", "intctor", "halfturn"):
+    if t in ("wrap", "ctor", "load", "mat", "intctor", "halfturn", "tinyadd", "tinyadd"):
         return _eval_wrap(case)[0]
     if t == "optk":
         return _eval_optk(case)[0]
@@ -364,6 +368,23 @@ def _eval_wrap(case):
 
     a = case["a"]
     msgs = []
+    if case["t"] == "tinyadd":
+        p0 = I.mk_pose("SE2", [1.0, -2.0, a])
+        inc = case["inc"]
+        if case["how"] == "pose":
+            r_ = p0 + I.mk_pose("SE2", [0.5, 0.25, inc])
+        elif case["how"] == "array":
+            r_ = p0 + np.array([0.5, 0.25, inc])
+        else:
+            r_ = p0.copy()
+            r_ += np.array([0.0, 0.0, inc])
+        r = float(r_[2])
+        msgs = []
+        if not (-math.pi <= r <= math.pi):
+            msgs.append("tinyadd: angle %.17g outside [-pi, pi]" % r)
+        if not congruent(r, Fraction(float(p0[2])) + Fraction(inc), Fraction(2 * math.ulp(4.0))):
+            msgs.append("heading %.17g composed with an increment of %g gives %.17g: not congruent to the exact sum (the increment was dropped?)" % (float(p0[2]), inc, r))
+        return msgs, r
     if case["t"] == "wrap":
         r = float(neg_pi_to_pi(a))
     elif case["t"] == "mat":
